@@ -83,6 +83,21 @@ Proof.
   apply mem_sz_small; [exact Hs|lia].
 Qed.
 
+Lemma sb_str m p cs bs (s : bytes) o d fuel : sb_inv m p cs ->
+  bs <> p -> sbuf_datab m p <> Some bs -> str_at m bs s -> nonul s -> (o <= length s)%nat -> Z.of_nat (length s) <= 2147483647 ->
+  Z.of_nat (length cs) + Z.of_nat (length (skipn o s)) <= 500000000 ->
+  exists m', callf cprog fuel (S (S (S d))) F_sbuf_str [VPtr p 0; VPtr bs (Z.of_nat o)] m = Ok (VUndef, m') /\
+    sb_inv m' p (cs ++ zb (skipn o s)) /\ sbuf_step m m' p.
+Proof.
+  intros (sz & R & Hs) Hbs Hbd Hsb Hn Ho Hl Hsz.
+  destruct (tr_sbuf_str m p cs sz bs s o d fuel R Hbs Hbd Hsb Hn Ho Hl) as (m' & E & R' & _ & S').
+  { apply (fits_small (Z.of_nat (length cs))); [exact Hs|lia|lia]. }
+  exists m'. split; [exact E|]. split; [|exact S'].
+  eexists. split; [exact R'|].
+  unfold IoDefs.sbuf_mem, sb_model. cbn [sb_sz sb_n sb_data]. rewrite Z.geb_leb, app_length, Nat2Z.inj_add.
+  unfold zb. rewrite map_length. apply mem_sz_small; [exact Hs|lia].
+Qed.
+
 (* a block that is neither the struct nor its data block, older than the buffer's last step, is untouched by the step *)
 Definition apart (m : mem) (p b : nat) : Prop := (b < length m)%nat /\ b <> p /\ sbuf_datab m p <> Some b.
 Lemma apart_step m m' p b : sbuf_step m m' p -> apart m p b -> nth_error m' b = nth_error m b /\ apart m' p b.
@@ -404,3 +419,445 @@ Definition rp_run (rep line : bytes) (o : Z) (offl : list Z) (fuel : nat) : res 
   | Ok _ => Err EShape
   | Err e => Err e
   end.
+
+(* ================================================================== (B) the per-line loop of ec_substitute *)
+Fixpoint first_for (s : stmt) : option stmt :=
+  match s with
+  | SFor _ _ _ => Some s
+  | SSeq a b | SIf _ a b => match first_for a with Some x => Some x | None => first_for b end
+  | SWhile _ b | SDoWhile b _ => first_for b
+  | _ => None
+  end.
+(* the body of  for (i = beg; i < end; i++)  in the translated ec_substitute *)
+Definition es_line : stmt := match first_for (fn_body cf_ec_substitute) with Some (SFor _ _ b) => b | _ => SSkip end.
+
+(* locals: 4 re, 5 offs, 10 &s, 11 i, 12 ln, 13 r, 14 l *)
+Definition es_cond : expr :=      (* rstr_find(re, ln, LEN(offs) / 2, offs, r ? RE_NOTBOL : 0) >= 0 *)
+  EBin OGe I32 (ECall X_rstr_find [ELocal 4; ELocal 12; ECast I32 (EBin ODiv U64 (EBin ODiv U64 (EConst 128) (EConst 4)) (ECast U64 (EConst 2)));
+                                   ELocal 5; ECond (ELocal 13) (EConst 2) (EConst 0)]) (EConst 0).
+Definition es_make : stmt := SIf (ELNot (ELocal 13)) (SExpr (ESetLocal 13 (ECall F_sbuf_make []))) SSkip.
+Definition es_gap : stmt := SExpr (ECall F_sbuf_mem [ELocal 13; ELocal 12; ELoad (Some I32) (EPtrAdd 1 (ELocal 5) (EConst 0))]).
+Definition es_rep : stmt := SExpr (ECall F_replace [ELocal 13; EGlob G_xrep; ELocal 12; ELocal 5]).
+Definition es_adv : stmt := SExpr (ESetLocal 12 (EPtrAdd 1 (ELocal 12) (ELoad (Some I32) (EPtrAdd 1 (ELocal 5) (EConst 1))))).
+Definition es_step : stmt :=      (* if (offs[1] <= offs[0]) { int l = MAX(1, uc_len(ln)); sbuf_mem(r, ln, l); ln += l; } *)
+  SIf (EBin OLe I32 (ELoad (Some I32) (EPtrAdd 1 (ELocal 5) (EConst 1))) (ELoad (Some I32) (EPtrAdd 1 (ELocal 5) (EConst 0))))
+      (SSeq (SExpr (ESetLocal 14 (ECond (EBin OLt I32 (EConst 1) (ECall F_uc_len [ELocal 12])) (ECall F_uc_len [ELocal 12]) (EConst 1))))
+            (SSeq (SExpr (ECall F_sbuf_mem [ELocal 13; ELocal 12; ELocal 14])) (SExpr (ESetLocal 12 (EPtrAdd 1 (ELocal 12) (ELocal 14))))))
+      SSkip.
+Definition es_stop : stmt :=      (* if (!*ln || *ln == '\n' || !strchr(s, 'g')) break; *)
+  SIf (EOrElse (EOrElse (ELNot (ELoad (Some I8) (ELocal 12))) (EBin OEq I32 (ECast I32 (ELoad (Some I8) (ELocal 12))) (EConst 10)))
+               (ELNot (EBuiltin BStrchr [ELoad None (ELocal 10); EConst 103]))) SBreak SSkip.
+Definition es_body : stmt := SSeq es_make (SSeq es_gap (SSeq es_rep (SSeq es_adv (SSeq es_step es_stop)))).
+Definition es_while : stmt := SWhile es_cond es_body.
+Definition es_str : stmt := SExpr (ECall F_sbuf_str [ELocal 13; ELocal 12]).
+Definition es_edit : stmt :=
+  SExpr (ECall X_lbuf_edit [ECall F_ex_lbuf []; ECall F_sbuf_buf [ELocal 13]; ELocal 11; EBin OAdd I32 (ELocal 11) (EConst 1)]).
+(* THE C TEXT of the loop body is these pieces (a change of ec_substitute's loop breaks this line) *)
+Lemma es_shape : es_line =
+  SSeq (SExpr (ESetLocal 12 (ECall F_lbuf_get [ECall F_ex_lbuf []; ELocal 11])))
+       (SSeq (SExpr (ESetLocal 13 (EConst 0)))
+             (SSeq es_while (SIf (ELocal 13) (SSeq es_str (SSeq es_edit (SExpr (ECall F_sbuf_free [ELocal 13])))) SSkip))).
+Proof. reflexivity. Qed.
+
+Lemma x_rstr_find_none : nth_error cprog X_rstr_find = None.
+Proof. vm_compute. reflexivity. Qed.
+
+(* strchr on a terminated string followed by anything *)
+Lemma scanc_cstr_tail (t : bytes) tail c n : nonul t -> (c < 256)%N -> c <> 0%N ->
+  scanc (map VInt (zb t) ++ VInt 0 :: tail) (wrap I8 (Z.of_N c)) n = Ok (match find_byte c t with Some k => Some (n + k)%nat | None => None end).
+Proof.
+  intros Ht Hc Hc0. revert n; induction t as [|x t IH]; intro n.
+  - cbn [zb map app scanc find_byte]. change (wrap I8 0) with (wrap I8 (Z.of_N 0)).
+    rewrite wrap_I8_inj by lia. destruct (N.eqb_spec 0 c); [congruence|]. reflexivity.
+  - inversion Ht as [|? ? Hx Ht']; subst. unfold zb in *. cbn [map app scanc find_byte].
+    destruct Hx as [Hx0 Hx]. rewrite wrap_I8_inj by lia. destruct (N.eqb_spec x c); [do 2 f_equal; lia|].
+    destruct (Z.eqb_spec (Z.of_N x) 0); [lia|]. rewrite (IH Ht'). destruct (find_byte c t); [do 2 f_equal; lia|reflexivity].
+Qed.
+Lemma strchr_cstr_in m b o s c : cstr_in m b o s -> nonul s -> (c < 256)%N -> c <> 0%N ->
+  do_builtin_m BStrchr [VPtr b o; VInt (Z.of_N c)] m
+  = Ok (match find_byte c s with Some k => VPtr b (o + Z.of_nat k) | None => VInt 0 end, m).
+Proof.
+  intros (blk & tail & H & Ho & E) Hn Hc Hc0. cbn [do_builtin_m do_builtin bind]. unfold blk_from. rewrite H.
+  assert (L : (Z.to_nat o < length blk)%nat).
+  { destruct (Nat.lt_ge_cases (Z.to_nat o) (length blk)) as [L|L]; [exact L|]. rewrite skipn_all2 in E by exact L. destruct (zb s); discriminate. }
+  destruct (Z.ltb_spec o 0); [lia|]. destruct (Z.ltb_spec (Z.of_nat (length blk)) o); [lia|]. cbn [orb bind].
+  rewrite E, scanc_cstr_tail by assumption. cbn [bind]. destruct (find_byte c s); reflexivity.
+Qed.
+Lemma has_g_find flags : has_g flags = match find_byte 103 flags with Some _ => true | None => false end.
+Proof.
+  unfold has_g. induction flags as [|x r IH]; [reflexivity|]. cbn [existsb find_byte].
+  rewrite N.eqb_sym. destruct (x =? 103)%N; [reflexivity|]. cbn [orb]. rewrite IH. destruct (find_byte 103 r); reflexivity.
+Qed.
+Lemma hd0_skipn (s : bytes) o : hd0 (skipn o s) = nthb s o.
+Proof. rewrite <- (Nat.add_0_r o) at 2. rewrite <- nthb_skipn. destruct (skipn o s); reflexivity. Qed.
+
+Section Scan.
+  (* the oracle for rstr_find, the model's matcher; memory m0 at the entry of the loop *)
+  Variable ext : nat -> list val -> mem -> res (val * mem).
+  Variable find : bytes -> bool -> option (list grp).
+  Variables (m0 : mem) (bl bo bsp bs rb : nat) (rz fo : Z) (line rep flags : bytes) (d fuel : nat).
+  Variables (a0 a1 a2 a3 a6 a7 a8 a9 a11 : val).
+  Hypothesis Hline : str_at m0 bl line.
+  Hypothesis Hnline : nonul line.
+  Hypothesis Hlen5 : Z.of_nat (length line) <= 500000000.
+  Hypothesis Hrep : cstr_in m0 G_xrep 0 rep.
+  Hypothesis Hnrep : nonul rep.
+  Hypothesis Hsp : nth_error m0 bsp = Some [VPtr bs fo].
+  Hypothesis Hflags : cstr_in m0 bs fo flags.
+  Hypothesis Hnflags : nonul flags.
+  Hypothesis Hbo : (bo < length m0)%nat.
+  Hypothesis Hob : exists blk0, nth_error m0 bo = Some blk0 /\ length blk0 = 32%nat.       (* int offs[32], contents arbitrary *)
+  Hypothesis Hne : bl <> bo /\ G_xrep <> bo /\ bsp <> bo /\ bs <> bo.
+  Let gflag := has_g flags.
+  Let call := callx ext cprog fuel (S (S (S d))).
+  Let Hlen : Z.of_nat (length line) < 2147483647.
+  Proof. lia. Qed.
+  Local Notation ST o rv lv m :=
+    (mkst [a0; a1; a2; a3; VPtr rb rz; VPtr bo 0; a6; a7; a8; a9; VPtr bsp 0; a11; VPtr bl (Z.of_nat o); rv; lv] m).
+
+  (* what rstr_find does, as far as the loop can see: it answers like the model's matcher on the rest of the line and
+     writes the 32 ints of offs (nothing else); the flag word is RE_NOTBOL = 2 or 0 *)
+  Definition find_oracle : Prop :=
+    forall (m : mem) (o : nat) (nb : bool) (blk : block),
+      str_at m bl line -> (o <= length line)%nat -> nth_error m bo = Some blk -> length blk = 32%nat ->
+      exists r blk', ext X_rstr_find [VPtr rb rz; VPtr bl (Z.of_nat o); VInt 16; VPtr bo 0; VInt (if nb then 2 else 0)] m
+                     = Ok (VInt r, upd m bo blk') /\ length blk' = 32%nat /\
+        match find (skipn o line) nb with
+        | None => r < 0
+        | Some offs => 0 <= r /\ exists offl, blk' = map VInt offl /\ ints_ok offl /\ offs = pairs offl
+        end.
+  (* the groups the replacement refers to point into the block of the line (a condition for empty / unset groups only) *)
+  Definition find_ptr_ok : Prop :=
+    forall o nb offs, (o <= length line)%nat -> find (skipn o line) nb = Some offs -> refs_ptr_ok o (length line) rep offs.
+  Hypothesis Horacle : find_oracle.
+  Hypothesis Hptr : find_ptr_ok.
+
+  (* the memory during the loop: it only grew, the blocks of the entry other than offs are as they were *)
+  Definition Ctx (mk : mem) : Prop :=
+    (length m0 <= length mk)%nat /\ (forall b, (b < length m0)%nat -> b <> bo -> nth_error mk b = nth_error m0 b) /\
+    exists blk, nth_error mk bo = Some blk /\ length blk = 32%nat.
+  (* the buffer r: allocated after the entry *)
+  Definition Rinv (mk : mem) (p : nat) (cs : list Z) : Prop :=
+    sb_inv mk p cs /\ (length m0 <= p)%nat /\ forall bd, sbuf_datab mk p = Some bd -> (length m0 <= bd)%nat.
+
+  Lemma ctx_line mk : Ctx mk -> str_at mk bl line.
+  Proof. intros (_ & F & _). unfold str_at. rewrite F; [exact Hline| |tauto]. apply nth_error_Some. unfold str_at in Hline. congruence. Qed.
+  Lemma ctx_rep mk : Ctx mk -> cstr_in mk G_xrep 0 rep.
+  Proof. intros (_ & F & _). apply (cstr_in_same m0); [|exact Hrep]. apply F; [apply (cstr_in_lt _ _ _ _ Hrep)|tauto]. Qed.
+  Lemma ctx_sp mk : Ctx mk -> nth_error mk bsp = Some [VPtr bs fo].
+  Proof. intros (_ & F & _). rewrite F; [exact Hsp| |tauto]. apply nth_error_Some. congruence. Qed.
+  Lemma ctx_flags mk : Ctx mk -> cstr_in mk bs fo flags.
+  Proof. intros (_ & F & _). apply (cstr_in_same m0); [|exact Hflags]. apply F; [apply (cstr_in_lt _ _ _ _ Hflags)|tauto]. Qed.
+  Lemma ctx_apart mk p cs b : Ctx mk -> Rinv mk p cs -> (b < length m0)%nat -> apart mk p b.
+  Proof.
+    intros (L & _) (_ & Hp & Hd) Hb. split; [lia|]. split; [lia|]. intro E. specialize (Hd _ E). lia.
+  Qed.
+  (* a step of the buffer keeps the context *)
+  Lemma ctx_step mk mk' p cs cs' : Ctx mk -> Rinv mk p cs -> sbuf_step mk mk' p -> sb_inv mk' p cs' ->
+    Ctx mk' /\ Rinv mk' p cs' /\ nth_error mk' bo = nth_error mk bo.
+  Proof.
+    intros C R S R'. pose proof C as (L & F & B). pose proof R as (_ & Hp & Hd). pose proof S as (L' & D' & F').
+    assert (Old : forall b, (b < length m0)%nat -> nth_error mk' b = nth_error mk b).
+    { intros b Hb. destruct (ctx_apart mk p cs b C R Hb) as (X1 & X2 & X3). apply F'; assumption. }
+    split; [|split].
+    - split; [lia|]. split; [intros b Hb Hn; rewrite Old by exact Hb; apply F; assumption|]. rewrite Old by exact Hbo. exact B.
+    - split; [exact R'|]. split; [exact Hp|]. intros bd E. destruct D' as [D'|(b & D' & Hb)]; [rewrite D' in E; apply Hd; exact E|].
+      rewrite D' in E. injection E as <-. lia.
+    - apply Old. exact Hbo.
+  Qed.
+  (* the oracle's store into offs keeps the context *)
+  Lemma ctx_upd_bo mk blk' : Ctx mk -> length blk' = 32%nat -> Ctx (upd mk bo blk').
+  Proof.
+    intros (L & F & B) Hl. assert (Hb : (bo < length mk)%nat) by lia.
+    split; [rewrite mlen_upd by exact Hb; exact L|]. split; [intros b Hb' Hn; rewrite mem_upd_other by assumption; apply F; assumption|].
+    exists blk'. split; [apply mem_upd_same; exact Hb|exact Hl].
+  Qed.
+  Lemma rinv_upd_bo mk p cs blk' : Ctx mk -> Rinv mk p cs -> Rinv (upd mk bo blk') p cs.
+  Proof.
+    intros C R. pose proof C as (L & _). pose proof R as ((sz & Rp & Hs) & Hp & Hd).
+    destruct (ctx_apart mk p cs bo C R Hbo) as (X1 & X2 & X3).
+    destruct (rep_upd_other mk p cs sz bo blk' Rp X2 X3 X1) as (R' & D').
+    split; [exists sz; split; assumption|]. split; [exact Hp|]. rewrite D'. exact Hd.
+  Qed.
+
+  (* ---- the pieces of one round *)
+  Lemma es_cond_eval mk o (nb : bool) p lv : Ctx mk -> (o <= length line)%nat ->
+    let rv := if nb then VPtr p 0 else VInt 0 in
+    exists r blk', eval call es_cond (ST o rv lv mk) = Ok (VInt (b2z (0 <=? r)), ST o rv lv (upd mk bo blk')) /\ length blk' = 32%nat /\
+      match find (skipn o line) nb with
+      | None => r < 0
+      | Some offs => 0 <= r /\ exists offl, blk' = map VInt offl /\ ints_ok offl /\ offs = pairs offl
+      end.
+  Proof.
+    intros C Ho rv. pose proof C as (_ & _ & blk & Hb & Hbl).
+    destruct (Horacle mk o nb blk (ctx_line _ C) Ho Hb Hbl) as (r & blk' & E & Hl' & Hm).
+    exists r, blk'. split; [|split; assumption].
+    unfold es_cond, rv. destruct nb; xs; change (wrap I32 16) with 16; unfold call; rewrite callx_S, x_rstr_find_none, E; reflexivity.
+  Qed.
+
+  (* if (!r) r = sbuf_make(); *)
+  Lemma es_make_new mk o lv fuel' : Ctx mk ->
+    exec call fuel' es_make (ST o (VInt 0) lv mk) = ONormal (ST o (VPtr (length mk) 0) lv (mk ++ [[VInt 0; VInt 0; VInt 0]])) /\
+    Ctx (mk ++ [[VInt 0; VInt 0; VInt 0]]) /\ Rinv (mk ++ [[VInt 0; VInt 0; VInt 0]]) (length mk) [] /\
+    nth_error (mk ++ [[VInt 0; VInt 0; VInt 0]]) bo = nth_error mk bo.
+  Proof.
+    intros C. pose proof C as (L & F & B). split; [|split; [|split]].
+    - unfold es_make. xstep. unfold call. rewrite (callx_mono ext _ _ _ _ _ _ _ (tr_sbuf_make mk (S (S d)) fuel)). xstep. reflexivity.
+    - split; [rewrite app_length; lia|]. split; [intros b Hb Hn; rewrite nth_error_app_old by lia; apply F; assumption|].
+      rewrite nth_error_app_old by lia. exact B.
+    - split; [apply sb_inv_make|]. split; [exact L|]. intros bd E.
+      rewrite (datab_null _ _ (VInt 0) (VInt 0)) in E by apply nth_error_app_new. discriminate.
+    - apply nth_error_app_old. lia.
+  Qed.
+  Lemma es_make_old mk o p lv fuel' : exec call fuel' es_make (ST o (VPtr p 0) lv mk) = ONormal (ST o (VPtr p 0) lv mk).
+  Proof. unfold es_make. xstep. reflexivity. Qed.
+
+  (* sbuf_mem(r, ln, n) for n bytes of the rest of the line *)
+  Lemma ctx_mem mk p cs o (n : nat) : Ctx mk -> Rinv mk p cs -> (o + n <= length line)%nat ->
+    Z.of_nat (length cs) + Z.of_nat n <= 500000000 ->
+    exists mk', callx ext cprog fuel (S (S (S d))) F_sbuf_mem [VPtr p 0; VPtr bl (Z.of_nat o); VInt (Z.of_nat n)] mk = Ok (VUndef, mk') /\
+      Ctx mk' /\ Rinv mk' p (cs ++ zb (firstn n (skipn o line))) /\ nth_error mk' bo = nth_error mk bo.
+  Proof.
+    intros C R Hn Hsz. pose proof R as (Rs & _).
+    assert (Hbl : (bl < length m0)%nat) by (apply nth_error_Some; unfold str_at in Hline; congruence).
+    destruct (ctx_apart mk p cs bl C R Hbl) as (X1 & X2 & X3).
+    set (src := zb (firstn n (skipn o line))).
+    assert (Ls : length src = n) by (unfold src, zb; rewrite map_length, firstn_length, skipn_length; lia).
+    destruct (sb_mem mk p cs bl (Z.of_nat o) (cstr_block (zb line)) src (S d) fuel Rs X2 X3 (ctx_line _ C) ltac:(lia)) as (mk' & E & R' & S').
+    - unfold cstr_block, zb. rewrite app_length, !map_length. cbn [length]. lia.
+    - rewrite Ls, Nat2Z.id. apply firstn_cstr_sub. exact Hn.
+    - lia.
+    - exists mk'. rewrite Ls in E. split; [apply (callx_mono ext); exact E|]. apply (ctx_step mk mk' p cs); assumption.
+  Qed.
+
+  (* if (!*ln || *ln == '\n' || !strchr(s, 'g')) break; *)
+  Lemma es_stop_ok mk o rv lv fuel' : Ctx mk -> (o <= length line)%nat ->
+    exec call fuel' es_stop (ST o rv lv mk) = if stops gflag (skipn o line) then OBreak (ST o rv lv mk) else ONormal (ST o rv lv mk).
+  Proof.
+    intros C Ho. pose proof (ctx_line _ C) as Hl. pose proof (nonul_lt256 _ Hnline) as H256.
+    pose proof (nthb_lt256 line o H256) as Hc.
+    unfold es_stop. xstep. rewrite (load_str mk bl line _ o Hl) by lia. xstep. rewrite (b_zero _ Hc).
+    destruct (Nat.eq_dec o (length line)) as [->|Hno].
+    - rewrite nthb_end, skipn_end by lia. cbn [N.eqb negb b2z stops]. xstep. reflexivity.
+    - rewrite (skipn_cons_nthb line o) by lia. cbn [stops]. set (c := nthb line o) in *.
+      assert (Hc0 : c <> 0%N).
+      { unfold c, nthb. unfold nonul in Hnline. rewrite Forall_forall in Hnline. destruct (Hnline (nth o line 0%N)) as [X _]; [apply nth_In; lia|]. lia. }
+      destruct (N.eqb_spec c 0); [contradiction|]. cbn [negb b2z]. xstep.
+      rewrite (load_str mk bl line _ o Hl) by lia. xstep. fold c. rewrite (b_is10 c Hc).
+      destruct (c =? 10)%N; cbn [b2z orb]; xstep; [reflexivity|].
+      unfold load. rewrite (ctx_sp _ C). cbn [Z.ltb Z.compare Z.to_nat nth_error]. xstep.
+      change 103 with (Z.of_N 103). rewrite (strchr_cstr_in mk bs fo flags 103 (ctx_flags _ C) Hnflags) by (try discriminate; reflexivity).
+      unfold gflag. rewrite has_g_find. destruct (find_byte 103 flags); xstep; reflexivity.
+  Qed.
+
+  (* if (offs[1] <= offs[0]) { int l = MAX(1, uc_len(ln)); sbuf_mem(r, ln, l); ln += l; } *)
+  Lemma es_step_ok mk o1 p cs lv offl c ln2 fuel' : Ctx mk -> Rinv mk p cs -> int_arr_at mk bo offl -> length offl = 32%nat -> ints_ok offl ->
+    (o1 <= length line)%nat ->
+    (if nthz offl 1 <=? nthz offl 0 then step_char (skipn o1 line) = Some (c, ln2) else (c = [] /\ ln2 = skipn o1 line)) ->
+    Z.of_nat (length cs) + Z.of_nat (length c) <= 500000000 ->
+    exists o2 lv' mk', exec call fuel' es_step (ST o1 (VPtr p 0) lv mk) = ONormal (ST o2 (VPtr p 0) lv' mk') /\
+      Ctx mk' /\ Rinv mk' p (cs ++ zb c) /\ skipn o2 line = ln2 /\ (o2 <= length line)%nat /\ nth_error mk' bo = nth_error mk bo.
+  Proof.
+    intros C R Hof Hol Hints Ho1 Hm Hsz. pose proof (ctx_line _ C) as Hl. pose proof (nonul_lt256 _ Hnline) as H256.
+    pose proof (nthz_ok offl 0 Hints) as I0. pose proof (nthz_ok offl 1 Hints) as I1.
+    unfold es_step. xstep.
+    rewrite (load_int_arr mk bo offl _ Hof) by lia. xstep. rewrite (load_int_arr mk bo offl _ Hof) by lia. xstep.
+    change (0 + 1 * 1) with 1. change (0 + 1 * 0) with 0. rewrite !wrap_I32_id by lia.
+    destruct (nthz offl 1 <=? nthz offl 0).
+    2:{ destruct Hm as [-> ->]. cbn [b2z]. xstep. exists o1, lv, mk. cbn [zb map]. rewrite app_nil_r. auto 10. }
+    cbn [b2z]. xstep.
+    unfold step_char in Hm. unfold uc_len in Hm. rewrite hd0_skipn, skipn_length in Hm.
+    set (ul := uc_len_b (nthb line o1)) in *.
+    destruct (Nat.ltb_spec (length line - o1) (Nat.max 1 ul)) as [Hlt|Hge]; [discriminate|].
+    assert (Ec : c = firstn (Nat.max 1 ul) (skipn o1 line) /\ ln2 = skipn (Nat.max 1 ul) (skipn o1 line)) by (injection Hm; auto).
+    clear Hm. destruct Ec as [-> ->].
+    pose proof (callx_mono ext _ _ _ _ _ _ _ (tr_uc_len mk bl line o1 (S (S d)) fuel Hl H256 Ho1)) as U. fold ul in U.
+    unfold call. rewrite U. xstep.
+    assert (Hul : (ul <= 4)%nat) by (unfold ul, uc_len_b; repeat match goal with |- context [if ?b then _ else _] => destruct b end; lia).
+    set (lz := Z.of_nat (Nat.max 1 ul)).
+    assert (El : (if 1 <? Z.of_nat ul then (do (v, m') <- callx ext cprog fuel (S (S (S d))) F_uc_len [VPtr bl (Z.of_nat o1)] mk;
+                                             Ok (v, ST o1 (VPtr p 0) lv m')) else Ok (VInt 1, ST o1 (VPtr p 0) lv mk))
+                 = Ok (VInt lz, ST o1 (VPtr p 0) lv mk)).
+    { unfold lz. destruct (Z.ltb_spec 1 (Z.of_nat ul)); [rewrite U; cbn [bind]; do 3 f_equal; lia|do 3 f_equal; lia]. }
+    rewrite El. clear El. xstep.
+    rewrite firstn_length, skipn_length, Nat.min_l in Hsz by lia.
+    destruct (ctx_mem mk p cs o1 (Nat.max 1 ul) C R ltac:(lia) Hsz) as (mk' & E & C' & R' & B').
+    fold lz in E. rewrite E. xstep.
+    exists (o1 + Nat.max 1 ul)%nat, (VInt lz), mk'.
+    replace (Z.of_nat o1 + 1 * lz) with (Z.of_nat (o1 + Nat.max 1 ul)) by (unfold lz; lia).
+    split; [reflexivity|]. split; [exact C'|]. split; [exact R'|]. split; [rewrite skipn_skipn; reflexivity|]. split; [lia|exact B'].
+  Qed.
+
+  (* one round after `if (!r) r = sbuf_make()`: gap, replace, advance, step over a character after an empty match, stop test
+     = SubstDefs.one_match + SubstDefs.stops *)
+  Lemma es_round mk o p cs lv offl out1 ln2 fuel' : Ctx mk -> Rinv mk p cs -> int_arr_at mk bo offl -> length offl = 32%nat -> ints_ok offl ->
+    (o <= length line)%nat -> (length rep < fuel)%nat ->
+    one_match rep (skipn o line) (pairs offl) = Some (out1, ln2) -> refs_ptr_ok o (length line) rep (pairs offl) ->
+    Z.of_nat (length cs) + Z.of_nat (length out1) <= 500000000 ->
+    exists o2 cells lv' mk',
+      exec call fuel' (SSeq es_gap (SSeq es_rep (SSeq es_adv (SSeq es_step es_stop)))) (ST o (VPtr p 0) lv mk)
+      = (if stops gflag ln2 then OBreak (ST o2 (VPtr p 0) lv' mk') else ONormal (ST o2 (VPtr p 0) lv' mk')) /\
+      Ctx mk' /\ Rinv mk' p (cs ++ cells) /\ map byte_of cells = out1 /\ skipn o2 line = ln2 /\ (o2 <= length line)%nat.
+  Proof.
+    intros C R Hof Hol Hints Ho Hfr Hm Hp Hsz. pose proof (nonul_lt256 _ Hnline) as H256.
+    pose proof (nthz_ok offl 0 Hints) as I0. pose proof (nthz_ok offl 1 Hints) as I1.
+    unfold one_match in Hm. rewrite (nth_pairs offl 0) in Hm by lia. change (Z.of_nat (2 * 0)) with 0 in Hm. change (Z.of_nat (2 * 0 + 1)) with 1 in Hm.
+    set (so := nthz offl 0) in *. set (eo := nthz offl 1) in *. rewrite skipn_length in Hm.
+    destruct (Z.ltb_spec so 0); [discriminate|]. destruct (Z.ltb_spec eo so); [discriminate|].
+    destruct (Z.ltb_spec (Z.of_nat (length line - o)) eo); [discriminate|]. cbn [orb] in Hm.
+    destruct (expand rep (skipn o line) (pairs offl)) as [t|] eqn:Et; [|discriminate].
+    set (pre := firstn (Z.to_nat so) (skipn o line)) in *.
+    assert (Lpre : length pre = Z.to_nat so) by (unfold pre; rewrite firstn_length, skipn_length; lia).
+    (* the text appended after the replacement: the character stepped over, or nothing *)
+    assert (Hc : exists c, out1 = pre ++ t ++ c /\
+               (if eo <=? so then step_char (skipn (o + Z.to_nat eo) line) = Some (c, ln2) else (c = [] /\ ln2 = skipn (o + Z.to_nat eo) line))).
+    { rewrite skipn_skipn in Hm. destruct (eo <=? so).
+      - destruct (step_char (skipn (o + Z.to_nat eo) line)) as [[c l2]|]; [|discriminate]. injection Hm as <- <-. exists c. auto.
+      - injection Hm as <- <-. exists []. rewrite app_nil_r. auto. }
+    destruct Hc as (c & -> & Hstep). clear Hm. rewrite !app_length in Hsz.
+    (* sbuf_mem(r, ln, offs[0]) *)
+    rewrite exec_seq. unfold es_gap at 1. xstep. rewrite (load_int_arr mk bo offl _ Hof) by lia. xstep.
+    change (0 + 1 * 0) with 0. fold so. rewrite wrap_I32_id by lia.
+    destruct (ctx_mem mk p cs o (Z.to_nat so) C R ltac:(lia) ltac:(lia)) as (mk1 & E1 & C1 & R1 & B1).
+    rewrite Z2Nat.id in E1 by lia. unfold call. rewrite E1. fold pre in R1. xstep.
+    (* replace(r, xrep, ln, offs) *)
+    assert (Hof1 : int_arr_at mk1 bo offl) by (unfold int_arr_at; rewrite B1; exact Hof).
+    assert (Hbl : (bl < length m0)%nat) by (apply nth_error_Some; unfold str_at in Hline; congruence).
+    destruct R1 as (Rs1 & Rp1 & Rd1).
+    destruct (tr_replace mk1 p (cs ++ zb pre) G_xrep 0 rep bl line o bo offl t d fuel Rs1 (ctx_rep _ C1) Hnrep (ctx_line _ C1) H256 Ho Hlen Hof1 Hol Hints)
+      as (mk2 & cells2 & E2 & R2 & Ec2 & S2); try assumption.
+    { apply (ctx_apart mk1 p (cs ++ zb pre)); [exact C1|repeat split; assumption|apply (cstr_in_lt _ _ _ _ Hrep)]. }
+    { apply (ctx_apart mk1 p (cs ++ zb pre)); [exact C1|repeat split; assumption|exact Hbl]. }
+    { apply (ctx_apart mk1 p (cs ++ zb pre)); [exact C1|repeat split; assumption|exact Hbo]. }
+    { rewrite app_length. unfold zb. rewrite map_length. lia. }
+    destruct (ctx_step mk1 mk2 p (cs ++ zb pre) ((cs ++ zb pre) ++ cells2) C1 ltac:(repeat split; assumption) S2 R2) as (C2 & R2' & B2).
+    unfold es_rep at 1. xstep. rewrite (callx_mono ext _ _ _ _ _ _ _ E2). xstep.
+    (* ln += offs[1] *)
+    assert (Hof2 : int_arr_at mk2 bo offl) by (unfold int_arr_at; rewrite B2; exact Hof1).
+    unfold es_adv at 1. xstep. rewrite (load_int_arr mk2 bo offl _ Hof2) by lia. xstep.
+    change (0 + 1 * 1) with 1. fold eo. rewrite wrap_I32_id by lia.
+    replace (Z.of_nat o + 1 * eo) with (Z.of_nat (o + Z.to_nat eo)) by lia.
+    (* the step after an empty match *)
+    destruct (es_step_ok mk2 (o + Z.to_nat eo) p ((cs ++ zb pre) ++ cells2) lv offl c ln2 fuel' C2 R2' Hof2 Hol Hints ltac:(lia) Hstep)
+      as (o2 & lv' & mk3 & E3 & C3 & R3 & Hln2 & Ho2 & B3).
+    { rewrite !app_length. unfold zb. rewrite map_length. rewrite <- Ec2, map_length in Hsz. lia. }
+    fold call. rewrite E3.
+    (* the stop test *)
+    rewrite (es_stop_ok mk3 o2 (VPtr p 0) lv' fuel' C3 Ho2), Hln2.
+    exists o2, (zb pre ++ cells2 ++ zb c), lv', mk3.
+    split; [destruct (stops gflag ln2); reflexivity|]. split; [exact C3|]. split; [rewrite !app_assoc in *; exact R3|].
+    split; [|split; assumption].
+    assert (Bz : forall u : bytes, bytes_lt256 u -> map byte_of (zb u) = u) by (intros u Hu; apply byte_of_zb; exact Hu).
+    rewrite !map_app, Ec2, !Bz; [reflexivity| |].
+    - destruct (eo <=? so).
+      + unfold step_char in Hstep. destruct (_ <? _)%nat; [discriminate|]. injection Hstep as <- _. apply Forall_firstn'. apply Forall_skipn'. exact H256.
+      + destruct Hstep as [-> _]. constructor.
+    - unfold pre. apply Forall_firstn'. apply Forall_skipn'. exact H256.
+  Qed.
+
+  (* the while loop = SubstDefs.scan: r is NULL exactly while no match was found (notbol = false) *)
+  Lemma es_loop : forall f o (nb : bool) p cs lv mk out k fuel',
+    (f <= fuel')%nat -> (length rep < fuel)%nat -> Ctx mk -> (if nb then Rinv mk p cs else cs = []) -> (o <= length line)%nat ->
+    scan find rep gflag f nb (skipn o line) = Some (Some (out, k)) ->
+    Z.of_nat (length cs) + Z.of_nat (length out) <= 500000000 ->
+    exists o' rv' lv' mk' cells,
+      exec call fuel' es_while (ST o (if nb then VPtr p 0 else VInt 0) lv mk) = ONormal (ST o' rv' lv' mk') /\ Ctx mk' /\
+      (o' <= length line)%nat /\ out = map byte_of cells ++ skipn o' line /\
+      match k with
+      | O => rv' = (if nb then VPtr p 0 else VInt 0) /\ cells = [] /\ (nb = true -> Rinv mk' p cs)
+      | S _ => exists p', rv' = VPtr p' 0 /\ Rinv mk' p' (cs ++ cells) /\ (nb = true -> p' = p)
+      end.
+  Proof.
+    induction f as [|f IH]; intros o nb p cs lv mk out k fuel' Hf Hfr C Rn Ho Hs Hsz; [discriminate|].
+    destruct fuel' as [|f']; [lia|]. unfold es_while. rewrite exec_while.
+    destruct (es_cond_eval mk o nb p lv C Ho) as (r & blk' & E & Hl' & Hm). cbv zeta in E. rewrite E, truth_b2z.
+    cbn [scan] in Hs. destruct (find (skipn o line) nb) as [offs|] eqn:Ef.
+    2:{ destruct (Z.leb_spec 0 r); [lia|]. injection Hs as <- <-.
+        exists o, (if nb then VPtr p 0 else VInt 0), lv, (upd mk bo blk'), []. split; [reflexivity|]. split; [apply ctx_upd_bo; assumption|].
+        split; [exact Ho|]. split; [reflexivity|]. split; [reflexivity|]. split; [reflexivity|].
+        intros ->. apply rinv_upd_bo; assumption. }
+    destruct Hm as (Hr & offl & -> & Hints & ->). rewrite map_length in Hl'.
+    destruct (Z.leb_spec 0 r); [|lia].
+    destruct (one_match rep (skipn o line) (pairs offl)) as [[out1 ln2]|] eqn:Em; [|discriminate].
+    set (mk1 := upd mk bo (map VInt offl)) in *.
+    assert (C1 : Ctx mk1) by (apply ctx_upd_bo; [exact C|rewrite map_length; exact Hl']).
+    assert (Hof1 : int_arr_at mk1 bo offl) by (apply mem_upd_same; destruct C as (L & _); lia).
+    pose proof (Hptr o nb (pairs offl) Ho Ef) as Hp.
+    (* r after `if (!r) r = sbuf_make()` *)
+    assert (Mk : exists p1 mk2, exec call (S f') es_make (ST o (if nb then VPtr p 0 else VInt 0) lv mk1) = ONormal (ST o (VPtr p1 0) lv mk2) /\
+                   Ctx mk2 /\ Rinv mk2 p1 cs /\ int_arr_at mk2 bo offl /\ (nb = true -> p1 = p)).
+    { destruct nb.
+      - exists p, mk1. split; [apply es_make_old|]. split; [exact C1|]. split; [apply rinv_upd_bo; assumption|]. auto.
+      - subst cs. destruct (es_make_new mk1 o lv (S f') C1) as (E1 & C2 & R2 & B2).
+        exists (length mk1), (mk1 ++ [[VInt 0; VInt 0; VInt 0]]). split; [exact E1|]. split; [exact C2|]. split; [exact R2|].
+        split; [unfold int_arr_at; rewrite B2; exact Hof1|discriminate]. }
+    destruct Mk as (p1 & mk2 & E1 & C2 & R2 & Hof2 & Hp1).
+    assert (Hsz1 : Z.of_nat (length cs) + Z.of_nat (length out1) <= 500000000).
+    { destruct (stops gflag ln2); [injection Hs as <- _; rewrite app_length in Hsz; lia|].
+      destruct (scan find rep gflag f true ln2) as [[[out2 k2]|]|]; try discriminate. injection Hs as <- _. rewrite app_length in Hsz. lia. }
+    destruct (es_round mk2 o p1 cs lv offl out1 ln2 (S f') C2 R2 Hof2 Hl' Hints Ho Hfr Em Hp Hsz1)
+      as (o2 & cells & lv2 & mk3 & E3 & C3 & R3 & Ec & Hln2 & Ho2).
+    unfold es_body at 1. rewrite exec_seq, E1. fold es_body. rewrite E3.
+    destruct (stops gflag ln2).
+    - injection Hs as <- <-. exists o2, (VPtr p1 0), lv2, mk3, cells. split; [reflexivity|]. split; [exact C3|]. split; [exact Ho2|].
+      split; [rewrite Ec, Hln2; reflexivity|]. exists p1. auto.
+    - destruct (scan find rep gflag f true ln2) as [[[out2 k2]|]|] eqn:Es2; try discriminate. injection Hs as <- <-.
+      rewrite <- Hln2 in Es2. fold es_while.
+      destruct (IH o2 true p1 (cs ++ cells) lv2 mk3 out2 k2 f' ltac:(lia) Hfr C3 R3 Ho2 Es2) as (o' & rv' & lv' & mk' & cells2 & E' & C' & Ho' & Eo & Hk).
+      { rewrite app_length in *. rewrite <- Ec, map_length in Hsz. lia. }
+      rewrite E'. destruct k2 as [|k2].
+      + destruct Hk as (-> & -> & Rk). exists o', (VPtr p1 0), lv', mk', cells. split; [reflexivity|]. split; [exact C'|]. split; [exact Ho'|].
+        split; [rewrite Ec, Eo; reflexivity|]. exists p1. split; [reflexivity|]. split; [apply Rk; reflexivity|exact Hp1].
+      + destruct Hk as (p' & -> & Rk & Pk). specialize (Pk eq_refl). subst p'.
+        exists o', (VPtr p1 0), lv', mk', (cells ++ cells2). split; [reflexivity|]. split; [exact C'|]. split; [exact Ho'|].
+        split; [rewrite map_app, Ec, Eo, app_assoc; reflexivity|]. exists p1. rewrite app_assoc. auto.
+  Qed.
+
+  Lemma ctx_m0 : Ctx m0.
+  Proof. split; [lia|]. split; [reflexivity|exact Hob]. Qed.
+
+  (* THE THEOREM about the loop of one line.  At the entry ln points to the start of the line, r is NULL.
+     - the model leaves the line alone (no match): the C loop ends with r == NULL (the if (r) block is skipped: no edit);
+     - the model rewrites the line to `new`: after the loop and sbuf_str(r, ln) the buffer r -- a struct sbuf allocated after
+       the entry -- holds exactly the bytes of `new`.
+     In both cases the only block of the entry memory that changed is offs; every load, store and memcpy was inside its
+     block, no signed operation overflowed, the loop ended within |line| + 1 rounds. *)
+  Theorem subst_line_ok lv : (S (length line) <= fuel)%nat -> (length rep < fuel)%nat ->
+    match subst_line find rep gflag line with
+    | Unchanged =>
+        exists lv' mk', exec call fuel es_while (ST 0 (VInt 0) lv m0) = ONormal (ST 0 (VInt 0) lv' mk') /\ Ctx mk'
+    | Changed new =>
+        Z.of_nat (length new) <= 500000000 ->
+        exists o' p lv' mk' cells,
+          exec call fuel (SSeq es_while es_str) (ST 0 (VInt 0) lv m0) = ONormal (ST o' (VPtr p 0) lv' mk') /\ Ctx mk' /\
+          Rinv mk' p cells /\ map byte_of cells = new
+    | SOOB | SFuel => True
+    end.
+  Proof.
+    intros Hf Hfr. unfold subst_line.
+    destruct (scan find rep gflag (S (length line)) false line) as [[[out k]|]|] eqn:Es; try exact I.
+    pose proof (es_loop (S (length line)) 0%nat false 0%nat [] lv m0 out k fuel Hf Hfr ctx_m0 eq_refl ltac:(lia) Es) as L.
+    destruct k as [|k].
+    - assert (out = line).
+      { cbn [scan] in Es. destruct (find line false); [|injection Es as <-; reflexivity].
+        destruct (one_match rep line l) as [[o1 l2]|]; [|discriminate]. destruct (stops gflag l2); [discriminate|].
+        destruct (scan find rep gflag (length line) true l2) as [[[o2 k2]|]|]; discriminate. }
+      subst out. destruct L as (o' & rv' & lv' & mk' & cells & E & C' & Ho' & Eo & -> & -> & _); [cbn [length]; lia|].
+      cbn [map app] in Eo.
+      assert (o' = 0%nat).
+      { apply (f_equal (@length N)) in Eo. rewrite skipn_length in Eo. lia. }
+      subst o'. exists lv', mk'. split; [exact E|exact C'].
+    - intro Hsz. destruct L as (o' & rv' & lv' & mk' & cells & E & C' & Ho' & Eo & p' & -> & R' & _); [cbn [length]; lia|].
+      cbn [app] in R'. pose proof R' as (Rs & _).
+      assert (Hbl : (bl < length m0)%nat) by (apply nth_error_Some; unfold str_at in Hline; congruence).
+      destruct (ctx_apart mk' p' cells bl C' R' Hbl) as (X1 & X2 & X3).
+      destruct (sb_str mk' p' cells bl line o' d fuel Rs X2 X3 (ctx_line _ C') Hnline Ho' ltac:(lia)) as (mk2 & E2 & R2 & S2).
+      { subst out. rewrite app_length, map_length in Hsz. lia. }
+      destruct (ctx_step mk' mk2 p' cells _ C' R' S2 R2) as (C2 & R2' & _).
+      exists o', p', lv', mk2, (cells ++ zb (skipn o' line)).
+      split; [|split; [exact C2|split; [exact R2'|]]].
+      + rewrite exec_seq, E. unfold es_str. xstep. unfold call. rewrite (callx_mono ext _ _ _ _ _ _ _ E2). xstep. reflexivity.
+      + rewrite map_app, byte_of_zb; [symmetry; exact Eo|]. apply Forall_skipn'. apply nonul_lt256. exact Hnline.
+  Qed.
+End Scan.
+Print Assumptions subst_line_ok.
